@@ -47,11 +47,11 @@ let handle (line : string) : string =
       | 'w' -> OWrite (bytes_of_hex (let t = String.sub o 1 (String.length o - 1) in if t = "" then "-" else t))
       | 'f' -> OFlush | 'c' -> OClose | 'r' -> OReset
       | _ -> failwith "op") ops in
-    let r = wrun (sync = "1") z (win = "1") (if fa = 0 then None else Some (n_of_int fa)) ops in
+    let ((r, evok), nev) = wrun_checked (sync = "1") z (win = "1") (if fa = 0 then None else Some (n_of_int fa)) ops in
     let res = String.concat "," (List.map (fun (n, e) -> Printf.sprintf "%d:%d" (int_of_n n) (if e then 1 else 0)) r.wres) in
     let dests = String.concat "|" (List.map (fun chunks ->
       if chunks = [] then "." else String.concat "," (List.map hex_of_bytes chunks)) r.wdests) in
-    Printf.sprintf "W %d %s %s" (if r.woob then 1 else 0) (if res = "" then "-" else res) dests
+    Printf.sprintf "W %d %s %s %d %d" (if r.woob then 1 else 0) (if res = "" then "-" else res) dests (if evok then 1 else 0) (int_of_n nev)
   | ["R"; dict; data; term] ->
     (* reader model on one delivery of all the bytes (the result does not depend on the chunking:
        theorem schedule_independent), then the terminal behaviour of the source *)
